@@ -41,6 +41,8 @@ static void run_case(CaseCtx& c)
     cfg.abs_tol = tolk == 1 ? -1.0 : (tolk == 3 ? 1e-10 : 1e-8);
     cfg.rel_tol = tolk == 2 ? -1.0 : (tolk == 3 ? 1e-10 : 1e-8);
     cfg.threads = rng.pick({1, 1, 4});
+    if (cfg.threads > 1)
+        cfg.thread_reduction = rng.pick({1.0, 0.5, 0.3}); // fewer threads on coarser levels
     cfg.with_exact = true;
     bool cli_route = rng.coin(0.5);
     // recorded witness of the open finding F16 (fixed configuration): reproduces it on every run
